@@ -35,6 +35,11 @@ func (proj *SR) getDatum() *datum {
 	}
 
 	if len(proj.DatumParams) > 0 {
+		// A +towgs84 clause relates the system to WGS84 even when all of its
+		// terms are zero (as in PROJ.4 and proj4js): the datum is known.
+		if this.datum_type == pjdNoDatum {
+			this.datum_type = pjdWGS84
+		}
 		// The parameters are converted to radians and a scale factor below;
 		// work on a copy so that the exported field keeps the values that
 		// were given (arc seconds and parts per million).
